@@ -195,6 +195,28 @@ int main(int argc, char** argv)
                                 ctx.each([&] { return chk.describe(W, av, {}); }, [&](mc::Report& rep) { chk.run_case(W, av, {}, rep, idx); });
                             }
                         }
+                // particular values: every byte value as the one letter of a short bundle that is not a declared toggle - in
+                // front of, behind and between declared toggle letters (an implementation that indexes a table or a bit set
+                // with the letter must not alias any of them)
+                {
+                    Decl T3;
+                    T3.items = { Item::tog("verbose", "v"), Item::tog("quiet", "q", true), Item::tog("zero", "0"), Item::opt("opt", "o") };
+                    T3.accepted = 1;
+                    for (int b = 1; b < 256; b++)
+                    {
+                        char c = static_cast<char>(b);
+                        if (c == 'v' || c == 'q' || c == '0')
+                            continue;
+                        for (auto tok : { std::string("-v") + c, std::string("-") + c + "v", std::string("-v") + c + "q", std::string("-0") + c, std::string("-qq") + c + "0v" })
+                        {
+                            if (tok[1] == '=' || tok[1] == '-')
+                                continue; // `-=..` and `--..` are not bundles
+                            std::vector<std::string> av = { tok };
+                            long idx = ctx.next;
+                            ctx.each([&] { return chk.describe(T3, av, {}); }, [&](mc::Report& rep) { chk.run_case(T3, av, {}, rep, idx); });
+                        }
+                    }
+                }
                 // long unknown names that extend a declared one, and every declared item once (all accounted for)
                 std::vector<std::string> all;
                 for (auto& it : W.items)
